@@ -1,6 +1,6 @@
 # C12 — token-registry permissions gate every AMM operation and IBC export
 LEAN_MODULES = ["Sif.Props.C12"]
-EXTRACT = [{"group": "perm", "passes": ["perms"]}]
+EXTRACT = [{"group": "perm", "passes": ["perms", "lookup"]}]
 FAMILIES = [
     {"name": "perm", "family": "perm", "group": "perm", "driver": "drv_perm",
      "n_quick": 3000, "n_thorough": 40000, "seeds_thorough": 3},
@@ -15,7 +15,13 @@ RULE = ("perm: L1 on the real clp / tokenregistry message servers and the real i
         "on ratios at and around equality; (d) 2+n/60 transaction histories of 45 transactions on a chain whose committed state evolves: "
         "each transaction runs ALL its messages on ONE CacheContext, stops at the first failing message and is written back only if all "
         "succeeded and it is not a simulation (baseapp runMsgs); shapes [edit, message rigged to fail after the guards], [edit, message], "
-        "[1-3 messages], [edit], simulated [edit(, message)]; four of five transactions share the block height of their predecessor. Compared: registry after every edit, pass/refuse of every message (transfer: refused by the "
+        "[1-3 messages], [edit], simulated [edit(, message)]; four of five transactions share the block height of their predecessor; (e) unregistered denoms that other entries name: "
+        "8 bank denoms (funded; 2 of them with a pool and an LP) that appear in the registry ONLY as the base_denom / unit_denom / "
+        "ibc_counterparty_denom / display_name / display_symbol / external_symbol of an IBC-voucher shaped entry (denom ibc/<hash>) or of "
+        "an ordinary entry, or are prefixes / suffixes / case variants of registered denoms (cusd, cusdcx, Cusdc, CUSDC, owan): every "
+        "message kind and swap route naming them x each of those fields (and all at once) x carrier with full permissions / random "
+        "permissions x the named denom having no entry / an own entry without / with permissions, plus n/4 random ones; one message in "
+        "five of the transaction histories names such a denom and a quarter of their edits are voucher shaped. Compared: registry after every edit, pass/refuse of every message (transfer: refused by the "
         "wrapper or reached the ibc-go stub), whether a refused handler wrote to its own cached state. chk: accepted => decision table "
         "holds on the registry AS STORED (bytes read from the tokenregistry KV store of the context the message ran on and decoded, "
         "not through the keeper's GetRegistry); refused => digest of all 23 KV stores unchanged. non-trivial = distinct message line")
@@ -24,6 +30,8 @@ TRUSTED_BASE = [
     "fact translator extract/perm/perms.go (go/ast, syntactic): its recognition of the guard shapes, of 'the failing branch returns "
     "a non-nil error', and of 'state-writing call' (any call rooted at the handler's receiver or taking ctx whose name does not "
     "start with Get/Is/Exists/Check/Has/Calc/Validate/…); unrecognised registry calls become Guard.unknown and fail the obligation",
+    "fact pass `lookup` (same translator): which entry fields GetEntry's body selects, its successful returns, the Denom-equality "
+    "guard of the one inside the range loop; CheckEntryPermissions' body is not translated (tied by the matrix only)",
     "hand-written Lean model of GetEntry / CheckEntryPermissions / SetToken / RemoveToken / GetLiquidityAddSymmetryState, tied by "
     "differential execution; the handler model is 'regenerated guards, then an arbitrary body, inside the transaction wrapper'",
     "ibc-go behind the wrapper is a stub at L1 (only 'reached or not' is observed); CheckEntryPermissions on a nil entry is a panic "
